@@ -1,6 +1,7 @@
 package mon
 
 import (
+	"bufio"
 	"bytes"
 	"fmt"
 	"io"
@@ -292,6 +293,27 @@ func runC15(ctx *core.Ctx) {
 					cs.Violate("C15:differs:"+entry, fmt.Sprintf("%s (source offered as %s) under schedule %v (eof with data: %v) differs from Sanitize: %q vs %q; input=%q", entry, readerKindNames[kind], core.Clip(fmt.Sprint(s.sizes), 80), s.eofWithData, core.Clip(got, 200), core.Clip(ref, 200), core.Clip(in, 200)), w)
 				}
 			}
+			// standard readers that were partly read before they are handed over: only the rest is the input
+			{
+				pre := gen.Pick(r, []string{"<b>consumed</b>", "x", "<!-- gone -->", "<script>"})
+				srcs := []io.Reader{strings.NewReader(pre + in), bytes.NewReader([]byte(pre + in)), bytes.NewBufferString(pre + in), bufio.NewReader(strings.NewReader(pre + in))}
+				src := srcs[i%len(srcs)]
+				if _, err := io.CopyN(io.Discard, src, int64(len(pre))); err == nil {
+					var got string
+					if i%2 == 0 {
+						got = env.Pol.SanitizeReader(src).String()
+					} else {
+						var b bytes.Buffer
+						_ = env.Pol.SanitizeReaderToWriter(src, &b)
+						got = b.String()
+					}
+					cs.Eval()
+					lc["partly_consumed_readers"]++
+					if got != ref {
+						cs.Violate("C15:differs:partly-consumed-reader", fmt.Sprintf("a standard reader (#%d) of which %d bytes had been read already gives %q, Sanitize of the rest gives %q", i%len(srcs), len(pre), core.Clip(got, 200), core.Clip(ref, 200)), witness(map[string]interface{}{"already_read": pre}))
+					}
+				}
+			}
 			if heldBytes != nil {
 				lc["held_results_rechecked"]++
 				if string(heldBytes) != heldWant || heldBuf.String() != heldWant {
@@ -434,6 +456,10 @@ func runC15(ctx *core.Ctx) {
 				}
 				b.WriteString("<p>zqtailmarker</p>")
 				in = b.String()
+			}
+			if cs.Index >= 8 && r.Intn(8) == 0 {
+				// the end of stdin inside something the sanitiser removes, with and without a final line break
+				in += gen.Pick(r, []string{"<script>", "<script>x", "<!-- c", "<iframe>", "<b", "<style>x", "<a href=\"", "<textarea>", "<title>t", "<!DOCTYPE", "<object><p>", "&am", "<![CDATA[x"}) + gen.Pick(r, []string{"\n", "", "\r\n", "\n\n", " \n"})
 			}
 			switch r.Intn(10) * boolToInt(cs.Index >= 8) {
 			case 0:
